@@ -134,7 +134,13 @@ func (st *Statement) QueryContext(ctx context.Context, v []driver.NamedValue) (d
 				return false
 			}
 		}
-		rows.err = st.dbh.SelectDone(table, cb, cols...)
+		err := st.dbh.SelectDone(table, cb, cols...)
+		if err == io.EOF {
+			// That's a read error (a truncated file), which Next()
+			// shouldn't confuse with the end of the result.
+			err = io.ErrUnexpectedEOF
+		}
+		rows.err = err
 		rows.wg.Done()
 	}()
 
